@@ -131,7 +131,8 @@ func (l Language) Compare(other Language) LanguageComparison {
 }
 
 func languageFromLocale(locale string) Language {
-	if i := strings.IndexByte(locale, '.'); i >= 0 {
+	// language[_territory][.codeset][@modifier]: only keep the first part
+	if i := strings.IndexAny(locale, ".@"); i >= 0 {
 		locale = locale[:i]
 	}
 	return NewLanguage(locale)
